@@ -202,3 +202,59 @@ func (it *Iter) Value() []byte {
 }
 func (it *Iter) Error() error { return nil }
 func (it *Iter) Close()       {}
+
+// CrashDB is a DB whose process stops after a given number of durable write operations (each
+// Set/Delete outside a batch and each batch Write counts as one atomic operation, as with
+// LevelDB): once the budget is used up, further writes never reach the store. Reads are served
+// from what did reach it. Budget < 0 means no crash.
+type CrashDB struct {
+	DB
+	Budget *int
+	Ops    *int // durable write operations attempted so far
+}
+
+func NewCrashDB(inner DB, budget int) CrashDB {
+	b, o := budget, 0
+	return CrashDB{DB: inner, Budget: &b, Ops: &o}
+}
+
+func (d CrashDB) alive() bool {
+	*d.Ops++
+	if *d.Budget < 0 {
+		return true
+	}
+	if *d.Budget == 0 {
+		return false
+	}
+	*d.Budget--
+	return true
+}
+
+func (d CrashDB) Set(k, v []byte) error {
+	if d.alive() {
+		d.SetRaw(k, v)
+	}
+	return nil
+}
+func (d CrashDB) SetSync(k, v []byte) error { return d.Set(k, v) }
+func (d CrashDB) Delete(k []byte) error {
+	if d.alive() {
+		d.DeleteRaw(k)
+	}
+	return nil
+}
+func (d CrashDB) DeleteSync(k []byte) error { return d.Delete(k) }
+func (d CrashDB) NewBatch() dbm.Batch       { return &crashBatch{Batch: Batch{db: d.DB}, d: d} }
+
+type crashBatch struct {
+	Batch
+	d CrashDB
+}
+
+func (b *crashBatch) Write() error {
+	if b.d.alive() {
+		return b.Batch.Write()
+	}
+	return nil
+}
+func (b *crashBatch) WriteSync() error { return b.Write() }
